@@ -22,6 +22,7 @@ type PlayOpts struct {
 	ColdIndex    bool    // restart once before the final all-pairs queries (cold caches)
 	RichBuilds   float64 // probability of a speculative Build of the creator's next event on top of ALL current heads, right before its real (sparser) event
 	Rebuilds     float64 // probability that the BuildEach copy is built twice: first with the self-parent only, then again (same object) with all parents
+	ResetAfter   int     // >0: after that many accepted events of an epoch the instance is Reset() to the very same epoch and validator set and the epoch's events are fed again from the start
 	BuildHistory int     // >0: once per epoch, restart, then do this many sparse speculative builds at the same epoch/Lamport before building a root
 }
 
@@ -160,7 +161,22 @@ func Play(r *rand.Rand, s *Scenario, o PlayOpts, rec *Recorder) (blocks []BlockR
 		}
 		evs := orderEvents(r, ep.Events, o.Order)
 		var done []*Ev
-		for _, ev := range evs {
+		resetDone := false
+		for i := 0; i < len(evs); i++ {
+			ev := evs[i]
+			if o.ResetAfter > 0 && !resetDone && len(done) == o.ResetAfter && in.Store.GetEpoch() == ep.Epoch {
+				// the application re-synchronises: Reset to the epoch it is in, then the same events again
+				resetDone = true
+				if err, _ := guarded(func() error { return in.ResetTo(ep.Epoch, buildVals(ep.Vals)) }); err != nil {
+					rec.Crit("reset: " + err.Error())
+					return in.Blocks, true
+				}
+				rec.Reset(ep.Epoch, ep.Vals, anyByz)
+				rec.Stats["resets_mid_epoch"]++
+				done = nil
+				i = -1
+				continue
+			}
 			if in.Store.GetEpoch() != ep.Epoch {
 				break // sealed earlier in this order: the rest of the old epoch's events are no longer valid
 			}
